@@ -187,6 +187,7 @@ func scanPackage(p *packages.Package, short string, facts *Facts) {
 			// local pointer variables that only ever point to objects created in this function
 			fresh := freshPointers(fd, info)
 			freshSl := freshSlices(fd, info)
+			freshFA := freshFieldAssigns(fd, info)
 			recordWrite := func(lhs ast.Expr, at token.Pos) {
 				id, through := rootIdent(lhs)
 				if id == nil {
@@ -217,6 +218,16 @@ func scanPackage(p *packages.Package, short string, facts *Facts) {
 								facts.ASTWrites = append(facts.ASTWrites, Site{Pos: pos(at), Func: fn, What: exprString(lhs), Kind: "element-of-shared-slice"})
 								return
 							}
+						}
+					}
+				}
+				// element write `copy.f[i] = v` through a slice FIELD of a local copy of an AST struct: the copy shares the
+				// field's backing array with the original unless a fresh slice was assigned to copy.f on every path before
+				if ix, ok := lhs.(*ast.IndexExpr); ok {
+					if sel, ok := ix.X.(*ast.SelectorExpr); ok {
+						if t := info.TypeOf(ix.X); t != nil && sliceOfAST(t) && !dominatedByFreshAssign(freshFA, obj, exprString(sel), at) {
+							facts.ASTWrites = append(facts.ASTWrites, Site{Pos: pos(at), Func: fn, What: exprString(lhs), Kind: "element-of-slice-field-not-freshly-assigned"})
+							return
 						}
 					}
 				}
